@@ -81,6 +81,19 @@ where
                 };
                 let qa = Q::new(a, uu);
                 let qb = Q::new(bb, uv);
+                // a value compared with ITSELF (one object on both sides) reduces to the amount type's own comparison
+                if !cross && amt::same(a, bb) {
+                    rep.count("transitions", 4);
+                    #[allow(clippy::eq_op)]
+                    let own = guard(|| (qa == qa, qa != qa, PartialOrd::partial_cmp(&qa, &qa), <Q as HasRefUnit>::eq(&qa, &qa), <Q as HasRefUnit>::partial_cmp(&qa, &qa)));
+                    #[allow(clippy::eq_op)]
+                    let want = (a == a, a != a, PartialOrd::partial_cmp(&a, &a), a == a, PartialOrd::partial_cmp(&a, &a));
+                    match own {
+                        Ok(got) if got == want => rep.inc("self_comparisons"),
+                        Ok(got) => rep.violation("C02/same-object", mk_case(), format!("{:?}", got), format!("{:?}", want)),
+                        Err(p) => rep.violation("C02/panic", mk_case(), format!("panic: {p}"), format!("{:?}", want)),
+                    }
+                }
                 let r = guard(|| (rels(&qa, &qb), rels(&qb, &qa)));
                 rep.count("transitions", 14);
                 // second entry point: the trait methods the operators forward to must give the same answers
